@@ -2,10 +2,10 @@
     context to VHDL statements (C03, all-programs theorem).
 
     Anchors in the current /repo tree:
-    - cohdl/std/_context.py:503-512  [std.sequential(std.Clock(clk))] wraps the body as
+    - cohdl/std/_context.py:501-512  [std.sequential(std.Clock(clk))] wraps the body as
         [sensitivity.list(clk); if trigger: if step_cond(): reset_pushed(); fn()]
       which the backend prints as  [process(clk) begin if rising_edge(clk) then ... end if; end process]
-    - cohdl/_core/_ir/_repr.py:1585-1621  [reset_pushed()] is replaced by one
+    - cohdl/_core/_ir/_repr.py:1586-1622 (class SequentialContext: `pushed` collected at 1586-1591, the replacement at 1615-1622)  [reset_pushed()] is replaced by one
       [SignalAssignment(sig, sig.default())] per signal that the context accesses with PUSH;
     - output ports that are read or driven from a process are buffered
       ([signal buffer_q0 ... ; q0 <= buffer_q0;], emitted "CONCURRENT BLOCK (buffer assignment)");
